@@ -201,6 +201,10 @@ def recv_message(spec):
     pm = {'attr': attr, 'nlri': [PREFIXES[i] for i in spec.get('n', [])],
           'withdraw': [PREFIXES[i] for i in spec.get('w', [])]}
     frame = Update().construct(copy.deepcopy(pm), True, False)
+    if spec.get('dirty'):
+        # the same prefix as another speaker may encode it: bits beyond the prefix length set in the last octet (RFC 4271
+        # 4.3: "the value of trailing bits is irrelevant") - 10.4.0.0/15 written as 0f 0a 05
+        frame = frame[:19] + frame[19:].replace(b'\x0f\x0a\x04', b'\x0f\x0a\x05')
     if raw:
         body = frame[19:]
         wl = struct.unpack('!H', body[:2])[0]
